@@ -207,9 +207,11 @@ func (a *Agent) gatherCandidates(ctx context.Context, done chan struct{}) { //no
 		if err != nil {
 			a.log.Warnf("Failed to get initial interfaces for monitoring: %v", err)
 		} else {
-			for _, info := range addrs {
-				a.lastKnownInterfaces[info.addr.String()] = info.addr
-			}
+			_ = a.loop.Run(ctx, func(context.Context) {
+				for _, info := range addrs {
+					a.lastKnownInterfaces[info.addr.String()] = info.addr
+				}
+			})
 			a.log.Infof("Initialized network monitoring with %d IP addresses", len(addrs))
 		}
 		go a.startNetworkMonitoring(ctx)
@@ -1488,14 +1490,16 @@ func (a *Agent) detectNetworkChanges() bool {
 
 	hasAdditions := false
 
-	for key, addr := range currentInterfaces {
-		if _, exists := a.lastKnownInterfaces[key]; !exists {
-			a.log.Infof("New IP address detected: %s", addr)
-			hasAdditions = true
+	_ = a.loop.Run(a.loop, func(context.Context) {
+		for key, addr := range currentInterfaces {
+			if _, exists := a.lastKnownInterfaces[key]; !exists {
+				a.log.Infof("New IP address detected: %s", addr)
+				hasAdditions = true
+			}
 		}
-	}
 
-	a.lastKnownInterfaces = currentInterfaces
+		a.lastKnownInterfaces = currentInterfaces
+	})
 
 	return hasAdditions
 }
